@@ -41,12 +41,16 @@ TR = 'chainables.transform'
 
 
 def run(ctx: Ctx):
-  for r in (r1, r2, r3, r4, r5, r6, r9, r11, r12, r13, r14, r15, r16, r17):
+  for r in (r1, r2, r3, r4, r5, r6, r9, r11, r12, r13, r14, r15, r16, r17, r19):
     ctx.guard(r)
   from mlmverif.props import c09
   ctx.include('R-C12-10', 'error skipping configured on a data source survives a'
               ' state round trip (make(shard=...), restore): the rebuilt root'
               ' carries ignore_error (R-C09-2)', c09.r2, min_instances=3)
+  ctx.include('R-C12-18', '"error skipping drops only failing elements": the random-access reader steps over a record only'
+              ' after a SINGLE-element read of it failed — the read window it retries with shrinks to one element before'
+              ' the index advances past a failure (R-C09-6 read window of _RangeIterator): a failed multi-element or slice'
+              ' read says nothing about the individual records', c09.r6, min_instances=1)
   from mlmverif.props import c05
   from mlmverif.props._queue import model as qmodel
   ctx.include('R-C12-7', '"the first error reaches the caller, iteration stops'
@@ -985,11 +989,45 @@ def r6(ctx: Ctx):
   ctx.floor(rule, 2)
 
 
+def r19(ctx: Ctx):
+  rule = 'R-C12-19'
+  ctx.rule(rule, '"for all ... counts of failing elements": stepping over skipped records is a LOOP — no `__next__` of the'
+           ' iterator classes of the data sources, queues and runners calls itself (`next(self)`, `self.__next__()`). A'
+           ' recursive step costs one Python frame per consecutive skipped record: a run of unreadable records as long as'
+           ' the recursion limit (1000) raises RecursionError — an error that surfaces although skipping is on, and the'
+           ' readable records behind the run are never delivered')
+  repo = ctx.repo
+  n = 0
+  for mod in ('chainables.io', 'utils.iter_utils', 'chainables.transform', 'chainables.tree_fns'):
+    mi = repo.module(mod)
+    for ci in mi.classes.values():
+      for name in ('__next__', '__anext__'):
+        fi = ci.methods.get(name)
+        if fi is None:
+          continue
+        n += 1
+        rec = [c for c in walk_no_nested(fi.node) if isinstance(c, ast.Call) and (
+            (unparse(c.func) in ('next', 'anext') and c.args and unparse(c.args[0]) == 'self')
+            or unparse(c.func) in (f'self.{name}', 'self.__next__', 'self.__anext__'))]
+        what = f'{ci.name}.{name}: steps without recursion'
+        if rec:
+          ctx.fail(rule, fi, what,
+                   f'{ci.name}.{name} calls itself (`{unparse(rec[0])}`): every consecutive element it steps over (a skipped'
+                   ' or failing record) adds a frame, a run of ~1000 of them ends in RecursionError instead of being skipped',
+                   node=rec[0])
+        else:
+          ctx.ok(rule, fi, what, fi.node)
+  ctx.floor(rule, 8, n)
+
+
 from mlmverif.selfcheck import B, OK  # noqa: E402
 
 _F = 'chainables/tree_fns.py'
 _U = 'utils/iter_utils.py'
 VARIANTS = [
+    B('sequence-iterator-recurses-over-skipped', 'chainables/io.py',
+      '      while (result := next(self._it)) is _SKIPPED:\n        self._index += 1\n',
+      '      result = next(self._it)\n      if result is _SKIPPED:\n        self._index += 1\n        return next(self)\n', 'R-C12-19'),
     B('shared-iterator-remembers-end-after-any-error', 'utils/iter_utils.py',
       '    with self._lock:\n      return next(self._iterator)',
       '    with self._lock:\n      if getattr(self, \'_ended\', False):\n        raise StopIteration()\n      self._ended = True\n      value = next(self._iterator)\n      self._ended = False\n      return value', 'R-C12-17'),
